@@ -286,7 +286,10 @@ where
         return;
     }
     let layers = ref_layers::<H>(&leaves, cap_height);
-    let positions: Vec<usize> = if n <= 32 { (0..n).collect() } else { (0..10).map(|_| rng.gen_range(0..n)).chain([0, 1, n - 1, n / 2, n / 2 - 1]).collect() };
+    let mut positions: Vec<usize> = if n <= 32 { (0..n).collect() } else { (0..10).map(|_| rng.gen_range(0..n)).chain([0, 1, n - 1, n / 2, n / 2 - 1]).collect() };
+    if run.micro() && positions.len() > 2 {
+        positions = vec![positions[rng.gen_range(0..positions.len())], *positions.last().unwrap()];
+    }
     for &i in &positions {
         let proof = match catch(|| tree.prove(i)) {
             Ok(p) => p,
@@ -528,12 +531,16 @@ pub fn run(tier: Tier) -> ! {
     let bset = gen::boundary_set();
     let mut fails = Fails(vec![]);
     let quick = run.quick();
-    let max_k = if quick { 9 } else { 13 };
-    let pools = [1usize, 2, 3, 5, 8, 16];
+    let micro = run.micro();
+    let max_k = if micro { 3 } else if quick { 9 } else { 13 };
+    let pools: &[usize] = if micro { &[1, 3] } else { &[1, 2, 3, 5, 8, 16] };
     let mut case = 0u64;
     for k in 0..=max_k {
         for (wi, &width) in [1usize, 4, 5, 8, 20, 3, 13].iter().enumerate() {
             if quick && wi >= 5 && k > 4 {
+                continue;
+            }
+            if micro && !(wi == 0 || wi == 2) {
                 continue;
             }
             for cap_height in 0..=k {
@@ -556,10 +563,11 @@ pub fn run(tier: Tier) -> ! {
     run.count("single_tree_cases", case);
     // schedule monitor
     let mut sigs: HashSet<u64> = HashSet::new();
-    let reps = if quick { 3 } else { 25 };
+    let reps = if micro { 1 } else if quick { 3 } else { 25 };
+    let shapes: &[(usize, usize, usize)] = if micro { &[(3, 5, 0), (4, 3, 1)] } else { &[(6, 5, 0), (7, 8, 2), (8, 3, 1), (5, 9, 5), (9, 6, 3)] };
     for rep in 0..reps {
-        for &threads in &pools {
-            for (k, width, cap_height) in [(6usize, 5usize, 0usize), (7, 8, 2), (8, 3, 1), (5, 9, 5), (9, 6, 3)] {
+        for &threads in pools {
+            for &(k, width, cap_height) in shapes {
                 case += 1;
                 if run.skip_case(case) {
                     continue;
@@ -573,11 +581,11 @@ pub fn run(tier: Tier) -> ! {
         }
     }
     run.set_extra("schedule_distinct_thread_assignment_sequences", json!(sigs.len()));
-    if sigs.len() < 2 && run.only_case.is_none() {
+    if sigs.len() < 2 && run.only_case.is_none() && !micro {
         run.inconclusive("schedule monitor observed fewer than 2 distinct interleavings");
     }
     // batch trees
-    for b in 0..(if quick { 150u64 } else { 3000 }) {
+    for b in 0..run.n(3, 150, 3000) {
         case += 1;
         if run.skip_case(case) {
             continue;
